@@ -216,3 +216,18 @@ class Spec:
 
 def factory(W):
     return Spec(W)
+
+
+def _hs_of_map(self, c_sys, fn):
+    """HS_ab = <B_a, fn(B_b)> for a linear map fn on operators (orthonormal basis)"""
+    bs = self.basis(c_sys)
+    n = len(bs)
+    out = self.zeros_c((n, n))
+    for b in range(n):
+        img = fn(bs[b])
+        for a in range(n):
+            out[a, b] = self.hs_inner(bs[a], img)
+    return out
+
+
+Spec.hs_of_map = _hs_of_map
